@@ -6,6 +6,7 @@ import (
 	"fmt"
 	"net"
 	"runtime"
+	"strings"
 	"sync"
 	"sync/atomic"
 	"time"
@@ -21,7 +22,7 @@ import (
 func init() {
 	Register(&Runner{Prop: "C18", Level: "exploration",
 		Rule:    "the concurrent scenario families of C01 (storm, mass death, gate-ordered deaths), C02 (reorder rounds, re-prepare race), C07 (concurrent USE), C08 (re-prepare on forgetful / late hosts), C14 (register/disconnect during bursts, failover) and C16 (topology changes, kills, mutes) run in a -race build on all cores, each repeated with different seeds; every 'WARNING: DATA RACE' block is collected (halt_on_error=0), deduplicated by the pair of top-most repository frames; distinct = (family, seed) runs; non-trivial = the family reached a contended hook point from >= 2 goroutines",
-		Shards:  shards(10, 12),
+		Shards:  shards(11, 12),
 		Timeout: timeouts(15*time.Minute, 90*time.Minute),
 		Race:    true,
 		Run:     runC18})
@@ -61,6 +62,7 @@ func c18Families() []c18Family {
 			}
 		}},
 		{"C16/topology-under-traffic", func(c *Ctx, rep int) { topologyUnderTraffic(c, rep) }},
+		{"C17/hostile-under-traffic", func(c *Ctx, rep int) { hostileUnderTraffic(c, rep) }},
 		{"C16/topology+heal", func(c *Ctx, rep int) {
 			c16Topology(c, rep, 4, []topoStep{{"add", 3}, {"remove", 2}, {"add", 4}, {"restart", 3}}, rep%2 == 0, false)
 			for k, f := range []string{"kill-pooled", "kill-control", "kill-all", "mute-pooled"} {
@@ -101,6 +103,11 @@ func runC18(c *Ctx) {
 			r.Obs("family_runs", 1)
 			r.Obs("family:"+f.Name, 1)
 			r.Obs("requests_in_families", sub.R.Evaluations)
+			for _, k := range []string{"hostile_inputs_under_traffic", "good_requests_beside_hostile_inputs", "topology_under_traffic_requests"} {
+				if v := sub.R.Observed[k]; v > 0 {
+					r.Obs(k, v)
+				}
+			}
 			contended := 0
 			for _, p := range c18Points {
 				d := px.HookCount(p) - before[p]
@@ -191,4 +198,85 @@ func topologyUnderTraffic(c *Ctx, rep int) {
 	wg.Wait()
 	r.Eval(int(sent))
 	r.Obs("topology_under_traffic_requests", int(sent))
+}
+
+// hostileUnderTraffic: the hostile client inputs of C17 (those that cannot make the process allocate gigabytes) are sent
+// by several connections at once to an in-process proxy while well-behaved clients keep using it and a schema event is
+// broadcast now and then, so that the error and close paths of client connections run concurrently with normal traffic
+// under the race detector.
+func hostileUnderTraffic(c *Ctx, rep int) {
+	r := c.R
+	c.Step("hostile-under-traffic rep=%d", rep)
+	bed, err := px.NewBed(px.BedConfig{Hosts: 2, NumConns: 1 + rep%2, Keyspaces: []string{"ks1"}})
+	if err != nil {
+		r.Inconc("hostile-under-traffic: cannot start bed: " + err.Error())
+		return
+	}
+	defer bed.Close()
+	bed.OnHook(nil)
+	rng := c.Rng(7000 + rep)
+	var inputs []hostile
+	for _, h := range c17ClientInputs(rng, "4", 2200, 1<<20) {
+		k := h.Kind
+		if strings.HasPrefix(k, "length-claim/") || strings.HasPrefix(k, "header/body-length") || strings.HasPrefix(k, "nesting/") || strings.HasPrefix(k, "random-bytes") ||
+			strings.HasSuffix(k, "/byte-flip") || strings.HasSuffix(k, "/4-random-bytes") || strings.HasPrefix(k, "snappy/huge") || h.Keep || len(h.Bytes) > 1<<17 {
+			continue // could claim huge lengths (C17 judges those against the real binary with a memory cap)
+		}
+		inputs = append(inputs, h)
+	}
+	rng.Shuffle(len(inputs), func(i, j int) { inputs[i], inputs[j] = inputs[j], inputs[i] })
+	if len(inputs) > 600 {
+		inputs = inputs[:600]
+	}
+	stop := make(chan struct{})
+	var wg sync.WaitGroup
+	var good int64
+	for i := 0; i < 6; i++ {
+		cl, err := bed.ReadyClient(primitive.ProtocolVersion4, []string{"", "lz4"}[i%2])
+		if err != nil {
+			continue
+		}
+		wg.Add(1)
+		go func(i int, cl *rawcql.Client) {
+			defer wg.Done()
+			defer cl.Close()
+			if i%3 == 0 {
+				_, _ = cl.Call(1, &message.Register{EventTypes: []primitive.EventType{primitive.EventTypeSchemaChange}}, 5*time.Second)
+			}
+			for k := 0; ; k++ {
+				select {
+				case <-stop:
+					return
+				default:
+				}
+				_, _ = cl.CallF(BuildRequest(primitive.ProtocolVersion4, int16(2+k%20000), KQuery, true, NewTok(), primitive.ConsistencyLevelOne), 5*time.Second)
+				atomic.AddInt64(&good, 1)
+			}
+		}(i, cl)
+	}
+	p := &c17Proc{addr: bed.Addr}
+	ch := make(chan hostile)
+	var hw sync.WaitGroup
+	for w := 0; w < 8; w++ {
+		hw.Add(1)
+		go func() {
+			defer hw.Done()
+			for h := range ch {
+				p.sendHostile(h)
+			}
+		}()
+	}
+	for i, h := range inputs {
+		ch <- h
+		if i%100 == 50 {
+			bed.Cluster.Emit(&message.SchemaChangeEvent{ChangeType: primitive.SchemaChangeTypeCreated, Target: primitive.SchemaChangeTargetKeyspace, Keyspace: fmt.Sprintf("ks_h%d", i)})
+		}
+	}
+	close(ch)
+	hw.Wait()
+	close(stop)
+	wg.Wait()
+	r.Eval(len(inputs) + int(good))
+	r.Obs("hostile_inputs_under_traffic", len(inputs))
+	r.Obs("good_requests_beside_hostile_inputs", int(good))
 }
